@@ -77,6 +77,7 @@ class Loop:
     returns: List[Tuple[Cond, ...]] = field(default_factory=list)
     has_else: bool = False
     func: str = ""
+    found: List[Tuple[Cond, ...]] = field(default_factory=list)   # conditions (inside the loop) under which a `first` value is taken
 
 
 @dataclass
@@ -120,6 +121,7 @@ class Frame:
         self.locals: Set[str] = set()
         self.params: Set[str] = set()
         self.returns: List[Tuple[Tuple[Cond, ...], Term]] = []
+        self.return_loops: List[Tuple[int, ...]] = []
         self.base_conds = 0           # number of path conditions that belong to the callers
 
 
@@ -158,6 +160,8 @@ class Interp:
         # they never make an effect "conditional" in the sense of skipping work on valid input
         self.no_raise_lits: Set[Cond] = set()
         self._stack: List[str] = []
+        self._mtab: Dict[Tuple[str, str], Optional[Term]] = {}
+        self._unroll: List[int] = []
         self.notes: List[str] = []
         self.top = Frame(func, None, func.qualname)
         self._bind_params(self.top, func.node, args or {}, None)
@@ -272,7 +276,20 @@ class Interp:
             if name in f.locals or name in f.params:
                 return ("unbound", name)
             f = f.parent
-        return ("name", name)
+        return self._module_table(name, frame) or ("name", name)
+
+    def _module_table(self, name: str, frame: Frame) -> Optional[Term]:
+        """A module-level constant TUPLE display (a dispatch / candidate table hoisted out of a function) is its tuple term."""
+        fi = frame.func if frame.func is not None else self.func
+        key = (fi.module, name)
+        if key not in self._mtab:
+            from .core import module_binding
+            b = module_binding(self.prog, fi.module, name)
+            t = None
+            if b is not None and b[0] == "constant" and isinstance(b[1], ast.Tuple):
+                t = _table_term(b[1])
+            self._mtab[key] = t
+        return self._mtab[key]
 
     def assign_name(self, name: str, value: Term, frame: Frame) -> None:
         f = frame
@@ -320,6 +337,7 @@ class Interp:
         if isinstance(s, ast.Return):
             v = self.eval(s.value, frame, st) if s.value is not None else NONE
             frame.returns.append((st.conds[frame.base_conds:], v))
+            frame.return_loops.append(st.loops)
             if frame is self.top:
                 self._event("return", v, None, st, s, frame)
             for L in st.loops:
@@ -482,16 +500,34 @@ class Interp:
         has_break = any(isinstance(n, ast.Break) for b in s.body for n in _walk_same_loop(b))
         if items is not None and 0 < len(items) <= self.MAX_UNROLL and not has_break and not s.orelse:
             cur = st
-            for item in items:
+            has_continue = any(isinstance(n, ast.Continue) for b in s.body for n in _walk_same_loop(b))
+            for k, item in enumerate(items):
                 self.bind(s.target, item, frame, cur, s)
-                r = self.exec_block(s.body, frame, cur)
+                self._unroll.append(k)
+                try:
+                    r = self.exec_block(s.body, frame, cur)
+                finally:
+                    self._unroll.pop()
                 if r is None and _always_leaves(s.body):
                     return None          # every path of this iteration returns / raises
-            return cur
+                if r is not None and not has_continue:
+                    # what holds at the end of an iteration holds at the start of the next (e.g. "the conversion failed")
+                    cur = _State(r.conds, st.loops)
+            return _State(cur.conds, st.loops) if not has_continue else st
+        # loop fusion:  for x in (V(y) for y in src if C(y)): S   ==   for y in src: if C(y): x = V(y); S
+        inline_comp = isinstance(s.iter, (ast.GeneratorExp, ast.ListComp)) or (
+            isinstance(s.iter, ast.Call) and len(s.iter.args) == 1 and isinstance(s.iter.args[0], (ast.GeneratorExp, ast.ListComp)))
+        fz = self._fusable(it, inline_comp)
+        if fz is not None:
+            L1, extra, val = fz
+            it = self.loops[L1].iter
         lp = self._new_loop("for", it, s, st, frame)
         lp.has_else = bool(s.orelse)
         elem = self.loop_element(it, lp)
         inner = _State(st.conds, st.loops + (lp.id,))
+        if fz is not None:
+            elem = reloop(val, L1, lp.id)
+            inner = _State(st.conds + tuple((reloop(c, L1, lp.id), pol) for c, pol in extra), st.loops + (lp.id,))
         carried = {v for v in self._assigned_in(s.body) if v in frame.env or v in frame.locals}
         targets = {n.id for n in ast.walk(s.target) if isinstance(n, ast.Name)}
         pre = dict(frame.env)
@@ -514,6 +550,24 @@ class Interp:
                 return None
         return out
 
+    def _fusable(self, it: Term, inline_comp: bool) -> Optional[Tuple[int, Tuple[Cond, ...], Term]]:
+        """(inner loop, filter conditions, element value) when `it` is a comprehension with ONE generator over a plain iterable,
+        built right here (same loop nest, same path condition) - iterating it is iterating its source."""
+        if it[0] == "call" and it[1] in (("name", "list"), ("name", "tuple"), ("name", "iter")) and len(it[2]) == 1 and not it[3]:
+            it = it[2][0]
+        if it[0] != "obj" or self.objs[it[1]].kind not in ("genexp", "listcomp"):
+            return None
+        if self.objs[it[1]].kind == "listcomp" and not inline_comp:
+            return None                   # a named list is a value of its own (iterated again, measured, returned)
+        r = single_element(self, it)
+        if r is None or len(r[0]) != 1 or r[3].kind != "elem":
+            return None
+        (L1,), extra, val, ev = r
+        lp1 = self.loops[L1]
+        if lp1.iter is None or lp1.kind != "comp":
+            return None
+        return L1, tuple(extra), val
+
     def _search_result(self, v: str, lp: Loop, init: Optional[Term], frame: Frame) -> Optional[Term]:
         """The search idiom  `for x in xs: if C(x): v = V(x); break`  (v assigned once in the loop, on a path that breaks
         out of it, and not read in the loop):  after the loop  v == ('first', L, V, init)  - V at the first element
@@ -533,6 +587,7 @@ class Interp:
             return None
         if ("loopvar", v, lp.id) in list(subterms(val)):
             return None
+        lp.found = [tuple(inside)]
         return ("first", lp.id, val, init)
 
     def _exec_while(self, s: ast.While, frame: Frame, st: _State) -> Optional[_State]:
@@ -608,7 +663,8 @@ class Interp:
                 if env0.get(k) != v:
                     frame.env[k] = mk_ifexp(("name", "<raised-before>"), env0.get(k, ("unbound", k)), v)
             typ = self.eval(h.type, frame, st) if h.type is not None else ("name", "BaseException")
-            hs = st.with_cond(("call", ("name", "<except>"), (typ, const(s.lineno)), ()), True)
+            tag = (typ, const(s.lineno)) + ((const(tuple(self._unroll)),) if self._unroll else ())
+            hs = st.with_cond(("call", ("name", "<except>"), tag, ()), True)
             if h.name:
                 frame.env[h.name] = ("exc", typ)
             r = self.exec_block(h.body, frame, hs)
@@ -643,9 +699,9 @@ class Interp:
         elif isinstance(target, (ast.Tuple, ast.List)):
             n = len(target.elts)
             star = [i for i, e in enumerate(target.elts) if isinstance(e, ast.Starred)]
-            if value[0] == "tuple" and len(value[1]) == n and not star:
-                for e, v in zip(target.elts, value[1]):
-                    self.bind(e, v, frame, st, node)
+            if not star and _tuple_width(value) == n:
+                for i, e in enumerate(target.elts):
+                    self.bind(e, component(value, i, n), frame, st, node)
             else:
                 for i, e in enumerate(target.elts):
                     if isinstance(e, ast.Starred):
@@ -793,6 +849,10 @@ class Interp:
         if base[0] == "tuple" and idx[0] == "const" and isinstance(idx[2], int) and not isinstance(idx[2], bool) \
                 and -len(base[1]) <= idx[2] < len(base[1]):
             return base[1][idx[2]]
+        if base[0] == "ifexp" and idx[0] == "const" and isinstance(idx[2], int) and not isinstance(idx[2], bool):
+            w = _tuple_width(base)
+            if w is not None and -w <= idx[2] < w:
+                return component(base, idx[2], w)
         # x[i] where i is the position of a loop that walks x  ->  elem(x, L)
         if idx[0] == "idx":
             lp = self.loops[idx[1]]
@@ -1007,12 +1067,32 @@ class Interp:
             seq = rets
         else:
             seq = rets[:-1]
-        for conds, t in reversed(seq):
-            if not conds:
-                out = t
+        nb = len(st.loops)
+        heads = [(ls[nb] if len(ls) > nb else None) for ls in fr.return_loops]
+        items = list(zip(seq, heads[:len(seq)]))
+        # consecutive returns inside one loop of the callee are a SEARCH: the value at the first element on which one of them is
+        # taken, else whatever follows the loop  ->  ('first', L, V, rest)
+        i = len(items)
+        while i > 0:
+            (conds, t), head = items[i - 1]
+            if head is None:
+                out = t if not conds else mk_ifexp(conj(conds), t, out)
+                i -= 1
                 continue
-            c = conj(conds)
-            out = mk_ifexp(c, t, out)
+            j = i
+            while j > 0 and items[j - 1][1] == head:
+                j -= 1
+            lp = self.loops[head]
+            k = max(0, len(lp.conds) - fr.base_conds)
+            group = [(c[k:], t_) for (c, t_), _ in items[j:i]]
+            entry = items[j][0][0][:k]
+            V = group[-1][1]
+            for inside, t_ in reversed(group[:-1]):
+                V = mk_ifexp(conj(inside), t_, V) if inside else t_
+            lp.found = [tuple(inside) for inside, _ in group]
+            term = ("first", head, V, out)
+            out = mk_ifexp(conj(entry), term, out) if entry else term
+            i = j
         return out
 
 
@@ -1090,6 +1170,53 @@ def _const_expr(d: ast.AST) -> Term:
     if isinstance(d, ast.Tuple):
         return ("tuple", tuple(_const_expr(e) for e in d.elts))
     return ("name", "<default:" + ast.unparse(d) + ">")
+
+
+def _table_term(d: ast.AST) -> Optional[Term]:
+    if isinstance(d, ast.Tuple):
+        xs = [_table_term(e) for e in d.elts]
+        return None if any(x is None for x in xs) else ("tuple", tuple(xs))
+    if isinstance(d, ast.Constant):
+        return const(d.value)
+    if isinstance(d, ast.Name):
+        return ("name", d.id)
+    if isinstance(d, ast.Attribute):
+        b = _table_term(d.value)
+        return None if b is None else ("attr", b, d.attr)
+    return None
+
+
+def reloop(t, old: int, new: int):
+    """t with every reference to loop `old` (element, position, key, value) turned into the same reference to loop `new`"""
+    if not isinstance(t, tuple) or not t:
+        return t
+    k = t[0]
+    if k in ("elem", "key", "val") and len(t) == 3 and t[2] == old:
+        return (k, reloop(t[1], old, new), new)
+    if k == "idx" and len(t) == 2 and t[1] == old:
+        return ("idx", new)
+    if k == "const":
+        return t
+    return tuple(reloop(x, old, new) for x in t)
+
+
+def component(value: Term, i: int, n: int) -> Optional[Term]:
+    """i-th of n components of a tuple-valued term (through conditional terms), None when not visible"""
+    if value[0] == "tuple":
+        return value[1][i] if len(value[1]) == n and -n <= i < n else None
+    if value[0] == "ifexp":
+        a, b = component(value[2], i, n), component(value[3], i, n)
+        return None if a is None or b is None else mk_ifexp(value[1], a, b)
+    return None
+
+
+def _tuple_width(value: Term) -> Optional[int]:
+    if value[0] == "tuple":
+        return len(value[1])
+    if value[0] == "ifexp":
+        a, b = _tuple_width(value[2]), _tuple_width(value[3])
+        return a if a is not None and a == b else None
+    return None
 
 
 def const_truth(c: Term) -> Optional[bool]:
@@ -1550,6 +1677,58 @@ def flatten_conds(conds: Sequence[Cond]) -> List[Cond]:
     for t, pol in conds:
         add(t, pol)
     return out
+
+
+def dnf(conds: Sequence[Cond], limit: int = 1024) -> Optional[List[frozenset]]:
+    """The path condition as a disjunction of literal sets - one per class of paths - with the contradictory ones dropped.
+    and/or/not and conditional terms (also inside a comparison: (a if c else b) is None) are split; constants fold.
+    None when the expansion exceeds `limit` classes."""
+    class _TooBig(Exception):
+        pass
+
+    def lit(t: Term, pol: bool) -> List[frozenset]:
+        b, flip = strip_not(t)
+        pol = pol != flip
+        ct = const_truth(b)
+        if ct is not None:
+            return [frozenset()] if ct == pol else []
+        if b[0] == "bool":
+            parts = [lit(x, pol) for x in b[2]]
+            if (b[1] == "and") == pol:
+                return product(parts)
+            out: List[frozenset] = []
+            for p_ in parts:
+                out += p_
+            return out
+        if b[0] == "ifexp":
+            return product([lit(b[1], True), lit(b[2], pol)]) + product([lit(b[1], False), lit(b[3], pol)])
+        if b[0] == "cmp":
+            for i in (2, 3):
+                if b[i][0] == "ifexp":
+                    c, x, y = b[i][1], b[i][2], b[i][3]
+                    tx = b[:i] + (x,) + b[i + 1:]
+                    ty = b[:i] + (y,) + b[i + 1:]
+                    return product([lit(c, True), lit(tx, pol)]) + product([lit(c, False), lit(ty, pol)])
+        return [frozenset([(b, pol)])]
+
+    def product(parts: List[List[frozenset]]) -> List[frozenset]:
+        acc: List[frozenset] = [frozenset()]
+        for p_ in parts:
+            nxt = []
+            for a in acc:
+                for b in p_:
+                    u = a | b
+                    if any((t, not pol) in u for t, pol in b):
+                        continue
+                    nxt.append(u)
+            acc = list(dict.fromkeys(nxt))
+            if len(acc) > limit:
+                raise _TooBig()
+        return acc
+    try:
+        return product([lit(t, pol) for t, pol in conds])
+    except _TooBig:
+        return None
 
 
 def show_conds(conds: Sequence[Cond], interp: Optional[Interp] = None) -> str:
